@@ -22,7 +22,7 @@ Definition fname := list N.
 Definition listing := list (fname * list val).     (* files matched by the monitored pattern, with their lines *)
 
 Inductive srckind :=
-| SQueue (oneAtATime : bool) (default : option (list val)) (q0 : list (option (list val)))
+| SQueue (oneAtATime : bool) (default : option (list val * option Z)) (q0 : list (option (list val * option Z)))
 | SFile (done0 : list fname).
 
 Inductive cgop := OpCogroup | OpJoin | OpLeftOuterJoin | OpRightOuterJoin | OpFullOuterJoin.
@@ -48,8 +48,12 @@ Definition wf (g : graph) : Prop :=
   forall i nd, nth_error g i = Some nd -> forall p, In p (parents nd) -> (p < i)%nat.
 
 (* a queue entry is a batch (a list) or None, the placeholder the deserialiser turns into an EmptyRDD *)
-Definition qentry := option (list val).
-Definition entry_items (x : qentry) : list val := match x with Some b => b | None => [] end.
+(* a batch is any iterable of elements (list, tuple, range, generator ...: its elements, numSlices
+   None) or an RDD, given as its elements and its number of partitions (sc.parallelize(l, k)) *)
+Definition batch := (list val * option Z)%type.
+Definition batch_rdd (b : batch) : rdd := parallelize (fst b) (snd b).
+Definition qentry := option batch.
+Definition entry_items (x : qentry) : list val := match x with Some b => fst b | None => [] end.
 
 Record nstate := mkNs { ctime : Z; crdd : rv; queue : list qentry; fdone : list fname }.
 
@@ -60,7 +64,7 @@ Inductive event :=
 Record state := mkSt { ns : list nstate; log : list event }.
 
 (* ---------- sources ---------- *)
-Inductive qitem := QNone | QRdd (r : rdd) | QList (l : list val) | QFiles (fs : listing).
+Inductive qitem := QNone | QRdd (r : rdd) | QList (b : batch) | QFiles (fs : listing).
 
 Fixpoint name_eqb (a b : fname) : bool :=
   match a, b with
@@ -76,7 +80,7 @@ Definition src_get (k : srckind) (ls : listing) (s : nstate) : qitem * nstate :=
   | SQueue one dflt _ =>
       (* branch chosen by the regenerated kernel of QueueStream.get *)
       let b := queue_get_branch (Z.of_nat (length (queue s))) one in
-      if b =? 0 then (match dflt with None => QNone | Some d => QRdd (parallelize d None) end, s)
+      if b =? 0 then (match dflt with None => QNone | Some d => QRdd (batch_rdd d) end, s)
       else if b =? 1 then
         match queue s with
         | x :: q' => (match x with Some b => QList b | None => QNone end,
@@ -85,7 +89,7 @@ Definition src_get (k : srckind) (ls : listing) (s : nstate) : qitem * nstate :=
         end
       else (* all queued batches concatenated; a None entry here makes the comprehension raise
               TypeError in the code -- outside the model's domain (never generated) *)
-           (QList (concat (map entry_items (queue s))), mkNs (ctime s) (crdd s) [] (fdone s))
+           (QList (concat (map entry_items (queue s)), None), mkNs (ctime s) (crdd s) [] (fdone s))
   | SFile _ =>
       match filter (fun f => negb (name_in (fst f) (fdone s))) ls with
       | [] => (QNone, s)
@@ -118,7 +122,7 @@ Definition deserialize (it : qitem) : rdd :=
   match it with
   | QNone => empty_rdd
   | QRdd r => r
-  | QList l => parallelize l None
+  | QList b => batch_rdd b      (* ensure_rdd: an RDD passes through, anything else is parallelized *)
   | QFiles fs =>
       rdd_flatMap (lines_of fs)
         (parallelize (map (fun f => VStr (fst f)) (sort_files fs)) (Some (Z.of_nat (length fs))))
@@ -457,8 +461,8 @@ Fixpoint increasing {A : Type} (c : Z) (h : list (Z * A)) : Prop :=
 Definition spec_hist (g : graph) (h : list (Z * (nat -> listing))) (st : state) : state :=
   fold_left (fun s te => tick_spec g (snd te) (fst te) s) h st.
 
-Definition default_rdd (dflt : option (list val)) : rdd :=
-  match dflt with None => empty_rdd | Some d => parallelize d None end.
+Definition default_rdd (dflt : option batch) : rdd :=
+  match dflt with None => empty_rdd | Some d => batch_rdd d end.
 
 (* ---------- the RDD-level meaning of each API call: the expression the method body builds,
    applied to the RDDs its argument streams hold in the interval ---------- *)
